@@ -1,5 +1,7 @@
 """C29 — futures complete once and deliver one value (base, countable, data-copy futures under racing threads)."""
 
+import vfcore
+
 META = dict(
     level='exploration', engine='E4 direct-drive concurrency harness with stamped per-future records',
     technique='runtime monitoring: every set/get/is_ready/get_or_trigger on real futures is recorded with logical stamps and judged at the '
@@ -55,14 +57,15 @@ def run(ctx):
                                               '--yield', y, '--yield-us', us]))
 
     def one(j):
-        return j, ctx.run([str(c) for c in j['cmd']], timeout=7200 if thorough else 900, stall_s=180, tag='%s-%s-%d-%d' % (j['kind'], j['flavour'], j['t'], id(j)))
+        what = '%s/%s' % (j['flavour'], ' '.join(str(c) for c in j['cmd'][1:]))
+        r, st = ctx.run_with_stall_rule(lambda: ctx.run([str(c) for c in j['cmd']], timeout=7200 if thorough else 900, stall_s=180,
+                                                        tag='%s-%s-%d-%d' % (j['kind'], j['flavour'], j['t'], id(j))), what)
+        return j, r, st
 
     res = ctx.pmap(one, [j for j in jobs if j['par'] == 3], jobs=3) + ctx.pmap(one, [j for j in jobs if j['par'] == 1], jobs=1)
-    for j, r in res:
-        what = '%s/%s' % (j['flavour'], ' '.join(str(c) for c in j['cmd'][1:]))
-        st = ctx.absorb(r, what)
+    for j, r, st in res:
         if st == 'stalled':
-            ctx.inconclusive_case('stalled: ' + what)
+            ctx.inconclusive_case('stalled: %s [%s]' % (' '.join(str(c) for c in j['cmd'][1:]), vfcore.stall_key(r.backtraces)))
             continue
         s = r.summary()
         if not s:
